@@ -114,12 +114,27 @@ def run(case: dict, ctx) -> dict:
         enc = case["enc"]
         hd = d / "e.hdd"
         hd.mkdir()
+        clean_first = declares_entity and (case["r"] + case["lead"]) % 2 == 0
+        stamp = None
+        if clean_first:
+            # the bundle is loaded once while its descriptor is still an ordinary one; the file is then replaced in place
+            # (same path, same timestamps): what was learned from the earlier document says nothing about this one
+            (hd / "DiskDescriptor.xml").write_text(body, encoding="utf-8")
+            (hd / fn).write_bytes(b"D" * 4096)
+            s0 = os.stat(hd / "DiskDescriptor.xml")
+            stamp = (s0.st_atime_ns, s0.st_mtime_ns)
+            first = call(lambda: HDD(hd).descriptor.storage_data.storages[0].images[0].file)
+            cnt["hdd_clean_descriptor_loaded_first"] = 1
+            if not first.ok:
+                res["viol"].append({"what": f"a document without DOCTYPE was refused: {first.brief()}", "mech": MECH, "detail": {"entry_point": ep, "tb": first.tb}})
         if enc == "utf-8":
             (hd / "DiskDescriptor.xml").write_bytes(text.encode("utf-8"))
         else:
             t16 = text.replace('encoding="UTF-8"', 'encoding="UTF-16"')
             bom = b"\xff\xfe" if enc == "utf-16-le" else b"\xfe\xff"
             (hd / "DiskDescriptor.xml").write_bytes(bom + t16.encode(enc))
+        if stamp is not None:
+            os.utime(hd / "DiskDescriptor.xml", ns=stamp)
         (hd / fn).write_bytes(b"D" * 4096)
         # Parallels keeps a backup copy of the descriptor in the bundle; it is harmless and must not stand in for the real one
         (hd / "DiskDescriptor.xml.Backup").write_text(body, encoding="utf-8")
